@@ -21,8 +21,19 @@ import (
 // point the line expects. It reports false when the line is not enabled.
 func (s *sched) execLine(line string) bool {
 	w := strings.Fields(line)
-	if len(w) < 2 {
+	if len(w) < 1 {
 		return true
+	}
+	switch w[0] {
+	case "pnew":
+		s.pnew()
+		return true
+	case "aclose":
+		s.aclose()
+		return true
+	}
+	if len(w) < 2 {
+		return false
 	}
 	n, err := strconv.Atoi(w[1])
 	if err != nil {
@@ -68,10 +79,21 @@ func (s *sched) execLine(line string) bool {
 			return false
 		}
 		if len(w) > 2 && w[2] == "0" {
-			s.fnet(n, false, srv500)
+			mode := srv500
+			if len(w) > 3 && strings.HasPrefix(w[3], "mode=") {
+				if m, err := strconv.Atoi(w[3][5:]); err == nil && m > 0 && m < 8 {
+					mode = int32(m)
+				}
+			}
+			s.fnet(n, false, mode)
 		} else {
 			s.fnet(n, true, srvOK)
 		}
+	case "ftmpfail":
+		if !flightAt("miss") {
+			return false
+		}
+		s.ftmpfail(n)
 	case "freq":
 		if !flightAt("miss") {
 			return false
@@ -101,7 +123,7 @@ func (s *sched) execLine(line string) bool {
 		}
 		s.fend(n)
 	case "cancel":
-		if n < 0 || n >= len(s.tasks) || s.tasks[n].st == "enter" {
+		if n < 0 || n >= len(s.tasks) || s.tasks[n].st == "enter" || s.tasks[n].call != nil {
 			return false
 		}
 		s.cancelTask(s.tasks[n])
@@ -131,13 +153,54 @@ func (s *sched) execLine(line string) bool {
 		s.initTask(t)
 	case "close":
 		t := taskAt("holding")
-		if t == nil {
+		if t == nil || t.call != nil {
 			return false
 		}
 		s.closeTask(t)
+	case "realize":
+		// realize <proxy> <limit> <key>... [bad:i,j]
+		if n < 0 || n >= len(s.proxies) || s.proxies[n].call != nil || len(w) < 3 {
+			return false
+		}
+		limit, err := strconv.Atoi(w[2])
+		if err != nil || limit < 1 {
+			return false
+		}
+		var keys []int
+		badAt := map[int]bool{}
+		for _, x := range w[3:] {
+			if strings.HasPrefix(x, "bad:") {
+				for _, y := range strings.Split(x[4:], ",") {
+					if i, err := strconv.Atoi(y); err == nil {
+						badAt[i] = true
+					}
+				}
+				continue
+			}
+			k, err := strconv.Atoi(x)
+			if err != nil || k < 0 || k >= len(s.srv.layers) {
+				return false
+			}
+			keys = append(keys, k)
+		}
+		bad := make([]bool, len(keys))
+		for i := range bad {
+			bad[i] = badAt[i]
+		}
+		s.realize(s.proxies[n], limit, keys, bad)
+	case "pcancel":
+		if n < 0 || n >= len(s.proxies) || s.proxies[n].call == nil {
+			return false
+		}
+		s.pcancel(s.proxies[n])
+	case "pclose":
+		if n < 0 || n >= len(s.proxies) || s.proxies[n].call != nil {
+			return false
+		}
+		s.pclose(s.proxies[n])
 	case "closerace":
 		a := taskAt("holding")
-		if a == nil || len(w) < 3 {
+		if a == nil || len(w) < 3 || a.call != nil {
 			return false
 		}
 		m, err := strconv.Atoi(w[2])
@@ -172,7 +235,7 @@ func script(r *hx.Run, layers []*layer, name string, lines []string) {
 		return
 	}
 	s.quiet = true
-	r.Op("reset", "ok", false)
+	s.begin()
 	diverged := false
 	for _, l := range lines {
 		l = strings.TrimSpace(l)
